@@ -40,6 +40,8 @@ CONSTANTS Hash,        \* entry hashes
           Links,       \* hash -> sequence of hashes: next, then refs, in the order the code queues them
           Local,       \* hashes whose block is already local (announced heads are: Sync writes them)
           Bad,         \* entries that the log refuses to join (access controller / signature)
+          SyncPass,    \* refused entries that nevertheless pass the checks Sync makes on an announced head (written
+                       \* for another database by an authorised writer): queued and fetched, refused at the join
           Abort,       \* announced heads whose hash does not match their contents: Sync gives the whole announcement up
           NReq,        \* requests are 1..NReq; request NReq is never cancelled
           ReqHeads,    \* request -> sequence of hashes
@@ -83,7 +85,7 @@ Request(q) ==
     /\ req[q] = "new"
     /\ (q = NReq => \A p \in Reqs \ {NReq} : req[p] # "new")    \* the final request comes last
     /\ LET hs == IF \E i \in DOMAIN ReqHeads[q] : ReqHeads[q][i] \in Abort THEN <<>>
-                 ELSE IF Pinned THEN ReqHeads[q] ELSE SelectSeq(ReqHeads[q], LAMBDA h : h \notin Bad)
+                 ELSE IF Pinned THEN ReqHeads[q] ELSE SelectSeq(ReqHeads[q], LAMBDA h : h \notin (Bad \ SyncPass))
            r  == Enq(hs, q, tasks, queue, workers) IN
          /\ tasks' = r.tk /\ queue' = r.qu /\ workers' = r.ws
     /\ req' = [req EXCEPT ![q] = "running"]
